@@ -322,7 +322,7 @@ class TxChecker:
     def check_sig(self, sig, pubkey, script_code, sigversion):
         if self.sighash_log is not None and sig:
             # monitors want to know every digest a (signature, script code) pair commits to, usable key or not
-            self.sighash_log.append((sigversion, sig[-1], script_code, self.sighash(script_code, sig[-1], sigversion)))
+            self.sighash_log.append((sigversion, sig[-1], script_code, self.sighash(script_code, sig[-1], sigversion), bytes(sig)))
         pt = parse_pubkey(pubkey)
         if pt is None:
             return False
